@@ -237,6 +237,8 @@ func (m *MethodMocker) ExportMethod(name string) UnExportedMocker {
 // mock 回调函数, 需要和 mock 模板函数的签名保持一致
 // 方法的参数签名写法比如: func(s *Struct, arg1, arg2 type), 其中第一个参数必须是接收体类型
 func (m *MethodMocker) Apply(callback interface{}) {
+	// Apply 覆盖之前设定的 When 条件和 Return
+	m.when = nil
 	m.doApply(callback)
 }
 
@@ -370,6 +372,8 @@ func (m *UnexportedMethodMocker) Method(name string) UnExportedMocker {
 // mock 回调函数, 需要和 mock 模板函数的签名保持一致
 // 方法的参数签名写法比如: func(s *Struct, arg1, arg2 type), 其中第一个参数必须是接收体类型
 func (m *UnexportedMethodMocker) Apply(callback interface{}) {
+	// Apply 覆盖之前设定的 When 条件和 Return
+	m.when = nil
 	name := m.objName()
 	if name == "" {
 		panic("method name is empty")
@@ -443,6 +447,8 @@ func (m *UnexportedFuncMocker) objName() string {
 // mock 回调函数, 需要和 mock 模板函数的签名保持一致
 // 方法的参数签名写法比如: func(s *Struct, arg1, arg2 type), 其中第一个参数必须是接收体类型
 func (m *UnexportedFuncMocker) Apply(callback interface{}) {
+	// Apply 覆盖之前设定的 When 条件和 Return
+	m.when = nil
 	callback, _ = interceptDebugInfo(callback, nil, m)
 	m.applyByName(m.objName(), callback)
 	logger.Consolefc(logger.DebugLevel, "mocker [%s] apply.", logger.Caller(5), m.String())
@@ -491,6 +497,8 @@ func NewDefMocker(pkgName string, funcDef interface{}) *DefMocker {
 
 // Apply 代理方法实现
 func (m *DefMocker) Apply(callback interface{}) {
+	// Apply 覆盖之前设定的 When 条件和 Return
+	m.when = nil
 	m.doApply(callback)
 }
 
